@@ -209,6 +209,15 @@ func (c *Ctx) rulePerRecipientWrites(id string) {
 	ru.Evals(len(paths))
 	bad := ""
 	rows := map[string]int{}
+	takesIDMemo := map[*ssa.Function]bool{}
+	takesID := func(f *ssa.Function) bool {
+		if v, ok := takesIDMemo[f]; ok {
+			return v
+		}
+		v := c.callsTransitively(f, 1, func(x *core.Call) bool { return x.Is(o.midGet) })
+		takesIDMemo[f] = v
+		return v
+	}
 	for _, p := range paths {
 		reg := tri{}
 		for _, cd := range p.Conds {
@@ -236,7 +245,7 @@ func (c *Ctx) rulePerRecipientWrites(id string) {
 				if tgt.sessIdx >= 0 && core.Strip(pc.Common.Args[tgt.sessIdx]) != g.Value() {
 					bad = "the message is armed for a session other than the recipient looked up in this iteration"
 				}
-			case pc.Is(o.midGet) || (pc.Static != nil && pc.Static.Parent() == nil && o.arming[pc.Static] == nil && c.callsTransitively(pc.Static, 1, func(x *core.Call) bool { return x.Is(o.midGet) })):
+			case pc.Is(o.midGet) || (pc.Static != nil && pc.Static.Parent() == nil && o.arming[pc.Static] == nil && takesID(pc.Static)):
 				midGets++
 			}
 		}
@@ -274,12 +283,53 @@ func (c *Ctx) rulePerRecipientWrites(id string) {
 		}
 	}
 	ru.Check(bad == "", "per-recipient table of "+c.fname(fan), c.where(fan, fan), fmt.Sprintf("rows %v", rows), bad)
+	// the recipient loop is left only through its normal end
+	bad = ""
+	for b := range loop.Blocks {
+		if _, isRet := b.Instrs[len(b.Instrs)-1].(*ssa.Return); isRet {
+			bad = "return inside the recipient loop"
+		}
+		for _, sb := range b.Succs {
+			if !loop.Blocks[sb] && b != loop.Header {
+				bad = "the recipient loop can be left early at " + c.P.Pos(lastPos(b)) + ": when one recipient is missing or cannot be served, the recipients listed after it never receive the message"
+			}
+		}
+	}
+	ru.Check(bad == "", "exits of the recipient loop in "+c.fname(fan), c.where(fan, fan), "only the loop's normal end", bad)
+	// the packet armed for a recipient is that recipient's own object
+	bad = ""
+	nArm := 0
+	for _, cl := range core.CallsIn(fan) {
+		tgt := o.arming[cl.Static]
+		if cl.Static == nil || tgt == nil || tgt.pktIdx < 0 || !loop.Blocks[cl.Instr.Block()] {
+			continue
+		}
+		nArm++
+		al, ok := core.Strip(cl.Common.Args[tgt.pktIdx]).(*ssa.Alloc)
+		if !ok {
+			bad = "the packet handed to " + c.fname(cl.Static) + " is not a packet built in the fan-out"
+			continue
+		}
+		if !loop.Blocks[al.Block()] {
+			bad = "the packet armed for each recipient is one object allocated before the recipient loop and rewritten per recipient: every in-flight entry and retransmission closure of the delivery ends up pointing at the last recipient's identifier, QoS and topic"
+		}
+	}
+	ru.Check(bad == "" && nArm > 0, "per-recipient packet in "+c.fname(fan), c.where(fan, fan), fmt.Sprintf("%d arming call(s), each on a packet allocated in its own iteration", nArm), bad)
 	// the lookup key is the recipient of this iteration
 	keyOK := depReaches(g.Arg(0), func(v ssa.Value) bool {
 		ia, ok := v.(*ssa.IndexAddr)
 		return ok && reachesParam(ia.X, fan, sliceStringParam(fan))
 	})
 	ru.Check(keyOK, "registry key in "+c.fname(fan), c.whereI(g.Instr), "LocalState.Get(recipients[i])", "the session is not looked up by the recipient's id")
+}
+
+func lastPos(b *ssa.BasicBlock) token.Pos {
+	for i := len(b.Instrs) - 1; i >= 0; i-- {
+		if p := b.Instrs[i].Pos(); p.IsValid() {
+			return p
+		}
+	}
+	return b.Parent().Pos()
 }
 
 func sliceStringParam(f *ssa.Function) int {
@@ -324,6 +374,7 @@ func checkC06(c *Ctx) {
 	}
 	ru3.Anchor(found, "a mutex-guarded member in the identifier pool")
 	c.checkSortSearchSites("C06-R4", func(f *ssa.Function) bool { return strings.Contains(strings.ToLower(c.fname(f)), "pool") }, 1)
+	c.ruleFreeListShrink("C06-R5")
 }
 
 func checkC07(c *Ctx) {
@@ -688,5 +739,87 @@ func (c *Ctx) ruleVisitOnce(id, pkg string, entry *ssa.Function) {
 			}
 		}
 		ru.Check(bad == "", "child visits in "+c.fname(f), c.where(f, f), fmt.Sprintf("%d path(s), no child acted upon twice", len(paths)), bad)
+	}
+}
+
+// ruleFreeListShrink implements C06-R5: an assignment to the pool's free list never discards more than one interval.
+func (c *Ctx) ruleFreeListShrink(id string) {
+	ru := c.R.Rule(id, "the pool's free list loses at most one interval per step: it is never re-sliced from a variable low bound (s = s[i:]) or to an arbitrary high bound, and a deletion by append(s[:h], s[l:]...) has l == h or l == h+1 — free identifiers never vanish en bloc", "E11 shape rule on stores to the guarded free list", 3)
+	la := c.lockAnalysis()
+	n := 0
+	for _, m := range la.monitors {
+		if !stringsContains(stringsToLower(m.named.Obj().Name()), "pool") {
+			continue
+		}
+		for fname, mi := range m.fields {
+			if mi.guardLock() == "" {
+				continue
+			}
+			for _, a := range mi.accesses {
+				st, ok := a.instr.(*ssa.Store)
+				if !ok || a.ctor {
+					continue
+				}
+				if _, isSlice := st.Val.Type().Underlying().(*types.Slice); !isSlice {
+					continue
+				}
+				n++
+				key := fmt.Sprintf("assignment #%d to %s.%s in %s", n, m.named.Obj().Name(), fname, c.fname(a.fn))
+				isList := func(v ssa.Value) bool {
+					ld, ok := v.(*ssa.UnOp)
+					if !ok || ld.Op != token.MUL {
+						return false
+					}
+					fa, ok := ld.X.(*ssa.FieldAddr)
+					return ok && fieldNameOf(fa.X.Type(), fa.Field) == fname
+				}
+				bad := ""
+				switch v := st.Val.(type) {
+				case *ssa.Slice:
+					if isList(v.X) {
+						if v.Low != nil {
+							if k, ok := constInt(v.Low); !ok || k > 1 {
+								bad = "the free list is re-sliced from a variable low bound: every interval below it — identifiers that are free — is discarded"
+							}
+						}
+						if v.High != nil && v.Low == nil {
+							okHigh := false
+							if bo, ok := v.High.(*ssa.BinOp); ok && bo.Op == token.SUB {
+								if k, ok := constInt(bo.Y); ok && k == 1 {
+									okHigh = true
+								}
+							}
+							if !okHigh {
+								bad = "the free list is truncated to an arbitrary length"
+							}
+						}
+					}
+				case *ssa.Call:
+					if core.CallOf(v).Builtin() == "append" && len(v.Call.Args) == 2 {
+						a0, okA := v.Call.Args[0].(*ssa.Slice)
+						b0, okB := v.Call.Args[1].(*ssa.Slice)
+						if okA && okB && isList(a0.X) && isList(b0.X) && a0.High != nil && b0.Low != nil && a0.Low == nil && b0.High == nil {
+							h, l := a0.High, b0.Low
+							same := h == l || core.Term(h) == core.Term(l)
+							plusOne := false
+							if bo, ok := l.(*ssa.BinOp); ok && bo.Op == token.ADD {
+								if k, ok := constInt(bo.Y); ok && k == 1 && (bo.X == h || core.Term(bo.X) == core.Term(h)) {
+									plusOne = true
+								}
+							}
+							if bo, ok := h.(*ssa.BinOp); ok && bo.Op == token.SUB {
+								if k, ok := constInt(bo.Y); ok && k == 1 && (bo.X == l || core.Term(bo.X) == core.Term(l)) {
+									plusOne = true
+								}
+							}
+							if !same && !plusOne {
+								bad = "append(s[:h], s[l:]...) with l not in {h, h+1}: more than one interval is dropped from the free list"
+							}
+						}
+					}
+				}
+				ru.Check(bad == "", key, c.whereI(st), "no interval is lost en bloc", bad)
+			}
+		}
 	}
 }
